@@ -59,6 +59,8 @@ class Result:
         gen = '%s_%s' % (module, name)
         defs, consts, ov = [], {}, {}
         for k, v in pyconsts.items():
+            if k.startswith('_'):
+                continue            # adapter-only setting, not a constant of the specification
             if isinstance(v, (bool, int)) :
                 consts[k] = tla.to_tla(v)
             else:
